@@ -58,7 +58,7 @@ let () =
     | w ->
         if !dead then print_string "skipped\n" else
         (let cap = int_of_nat (readFd_capacity (fst !st)) in
-         match step !st (parse_op w) with
+         match step_c !st (parse_op w) with
          | Ok (st', (ORead _ as o)) -> st := st'; Printf.printf "ok %s:cap=%d %s\n" (show_out o) cap (show_state st')
          | Ok (st', o) -> st := st'; Printf.printf "ok %s %s\n" (show_out o) (show_state st')
          | Rejected -> Printf.printf "rejected - %s\n" (show_state !st)
